@@ -582,9 +582,70 @@ def ls3(F, R):
 # seeks
 
 
+def _seek_eval(F, name, size, cur, arg):
+    """run FileInfo::<name> on a file of `size` bytes positioned at `cur` with argument `arg` -> ('ok'|'err'|'?', offset afterwards)"""
+    from .absint import Interp, State
+    from .absval import const, agg as _agg, is_agg, is_int, int_const, TOP
+    from .rules_codec import sym_value
+    I = Interp(F, mode="bv", max_paths=64)
+    st = State()
+    fi = sym_value(I, st, "filesystem::files::FileInfo", "f", F)
+    A = F.adts["filesystem::files::FileInfo"]
+    names = [f["name"] for f in A["variants"][0]["fields"]]
+    vals = list(fi[4])
+    vals[names.index("current_offset")] = const(cur, 32)
+    e = vals[names.index("entry")]
+    E = F.adts[e[2]]
+    en = [f["name"] for f in E["variants"][0]["fields"]]
+    ev = list(e[4])
+    ev[en.index("size")] = const(size, 32)
+    vals[names.index("entry")] = _agg("struct", e[2], 0, ev)
+    cell = I.heap_alloc(st, _agg("struct", fi[2], 0, vals))
+    fn = F.fn("FileInfo::" + name)
+    signed = name == "seek_from_current"
+    outs = I.run(fn, [cell, const(arg, 32, signed)], st, 0)
+    if len(outs) != 1:
+        return "?", None
+    rv, s2 = outs[0]
+    after = I.read_loc(s2, (cell[1], cell[2], cell[3], None))[4][names.index("current_offset")]
+    kind = "?"
+    if is_agg(rv) and rv[3] is not None:
+        kind = "ok" if rv[3] == 0 else "err"
+    return kind, (int_const(after) if is_int(after) else None)
+
+
 @rule("SK1", ["C01"], floor=4,
       doc="FileInfo::seek_from_*: current_offset is stored only on the in-range edge (offset <= size; 0 <= new <= size); update_length in write only under new_offset > size")
 def sk1(F, R):
+    # decided by value first: each seek primitive on boundary positions of small and of > 2 GiB files is the specified
+    # function (target in 0..=size -> Ok and the cursor is the target; else Err and the cursor stays) - however it is written
+    from .absint import Undecided as _Und
+    M31, M32 = (1 << 31), (1 << 32) - 1
+    for name in ("seek_from_start", "seek_from_end", "seek_from_current"):
+        fn_ = F.fn("FileInfo::" + name)
+        bad = None
+        try:
+            for size in (0, 1, 1000, M31 - 1, M31, M31 + 5, M32):
+                for cur in sorted({0, size // 2, size}):
+                    if name == "seek_from_current":
+                        args = sorted({0, 1, -1, M31 - 1, -M31, max(-M31, min(M31 - 1, size - cur)), max(-M31, -cur), max(-M31, min(M31 - 1, size - cur + 1)), max(-M31, -cur - 1)})
+                    else:
+                        args = sorted({0, 1, size, min(M32, size + 1), M31, M32, size // 2})
+                    for a in args:
+                        if name == "seek_from_start":
+                            tgt = a
+                        elif name == "seek_from_end":
+                            tgt = size - a
+                        else:
+                            tgt = cur + a
+                        want = ("ok", tgt) if 0 <= tgt <= size else ("err", cur)
+                        got = _seek_eval(F, name, size, cur, a)
+                        if got != want and bad is None:
+                            bad = "%s(%d) on a %d-byte file at offset %d gives %s, expected %s" % (name, a, size, cur, got, want)
+        except _Und as e:
+            bad = "cannot evaluate: %s" % e
+        R.require(bad is None, fn_, "table:" + name, "seek primitive differs from its specification: %s" % bad, fn_.loc(0))
+
     def stores(fn):
         return [(b, i) for b, i, s in fn.stmts() if s["k"] == "Assign" and [e[2] for e in fn.canon_place(s["p"])["proj"] if e[0] == "field"] == ["current_offset"]]
 
